@@ -387,7 +387,7 @@ func c13RunOne(g c13Graph, errAt map[int]bool, choose c13Chooser, maxSteps int) 
 		var dump []c13GInfo
 		var reg map[int64]*c13Park
 		var mDone bool
-		deadline := time.Now().Add(2 * time.Second)
+		deadline := time.Now().Add(10 * time.Second) // generous: the machine may be heavily loaded; a real wedge is rare
 		spins := 0
 		// cheap wait first: the released goroutine normally reaches its next yield within microseconds
 		for i := 0; i < 300; i++ {
